@@ -330,6 +330,26 @@ partial def loop (w : Nat) (h : IO.FS.Stream) (out : IO.FS.Stream) (s : Sys) : I
   else if l.startsWith "glue " then
     out.putStrLn (runGlue ((l.drop 5).toString.splitOn " "))
     loop w h out s
+  else if l.startsWith "awseq " then
+    -- a fixed call sequence through the api crate's closure-taking writers = these provider-level calls;
+    -- the answer is the status of the last one
+    let calls : List String := match (l.drop 6).toString.trimAscii.toString with
+      | "0" => ["w arr 1", "w obj 1", "w endarr"]
+      | "1" => ["w obj 1", "w str 6b", "w arr 1", "w endobj"]
+      | "2" => ["w obj 1", "w bool 1"]
+      | "3" => ["w obj 1", "w endobj"]
+      | "4" => ["w arr 1", "w endarr"]
+      | "5" => ["w bool 1", "w bool 0"]
+      | "6" => ["w arr 1", "fin"]
+      | _ => []
+    if calls.isEmpty then
+      out.putStrLn "bad-op"
+      loop w h out s
+    else
+      let (s', a) := calls.foldl (fun (acc : Sys × String) c =>
+        (acc.1.step w (parseOp w ((c.splitOn " ").filter (fun t => !t.isEmpty))))) (s, "")
+      out.putStrLn ((a.splitOn " ").headD "")
+      loop w h out s'
   else
     let toks := (l.splitOn " ").filter (fun t => !t.isEmpty)
     let (s', a) := s.step w (parseOp w toks)
